@@ -78,7 +78,7 @@ func (f *Fix) MakeSpend(asset crypto.Hash, ins []*common.UTXO, owner int, amount
 			panic(err)
 		}
 	}
-	return signed.AsVersioned()
+	return Decoded(signed.AsVersioned())
 }
 
 // UTXOOf extracts output i of a transaction as a spendable UTXO.
